@@ -202,6 +202,8 @@ pub struct WriteCase {
     pub max_send: usize,
     pub vectored: bool,
     pub pending: bool,
+    /// the frames are pushed out by `Codec::shutdown` (final flush + transport shutdown) instead of `flush`
+    pub via_shutdown: bool,
 }
 
 struct WriteRun {
@@ -253,7 +255,8 @@ fn run_write(case: &WriteCase, prefix: &[u32]) -> WriteRun {
             }
         }
         loop {
-            match codec.flush(&mut cx) {
+            let r = if case.via_shutdown { codec.shutdown(&mut cx) } else { codec.flush(&mut cx) };
+            match r {
                 Poll::Ready(Ok(())) => break,
                 Poll::Ready(Err(e)) => return Some(format!("flush: {}", e)),
                 Poll::Pending => {
@@ -271,10 +274,21 @@ fn run_write(case: &WriteCase, prefix: &[u32]) -> WriteRun {
     }
     let s = sh.lock().unwrap();
     let mut bytes = vec![];
+    let mut shut = false;
     for e in &s.iolog {
-        if let IoEvKind::Write(b) = &e.kind {
-            bytes.extend_from_slice(b);
+        match &e.kind {
+            IoEvKind::Write(b) => {
+                if shut && error.is_none() {
+                    error = Some("bytes written after the transport was shut down".into());
+                }
+                bytes.extend_from_slice(b);
+            }
+            IoEvKind::Shutdown => shut = true,
+            _ => {}
         }
+    }
+    if case.via_shutdown && !shut && error.is_none() {
+        error = Some("shutdown completed without shutting the transport down".into());
     }
     WriteRun { bytes, error, trace: s.chooser.trace.clone(), diverged: s.chooser.diverged.clone(), partial_writes: s.partial_writes, calls: s.transport_calls }
 }
@@ -308,7 +322,7 @@ impl<'a> Harness for WriteHarness<'a> {
 
 pub fn write_cases(quick: bool) -> Vec<WriteCase> {
     let mut v = vec![];
-    let mk = |name: &str, frames: Vec<FSpec>, max_send: usize, vectored: bool, pending: bool| WriteCase { name: name.to_string(), frames, max_send, vectored, pending };
+    let mk = |name: &str, frames: Vec<FSpec>, max_send: usize, vectored: bool, pending: bool| WriteCase { name: name.to_string(), frames, max_send, vectored, pending, via_shutdown: name.contains("shutdown") };
     // short outputs (<= 17 octets): every chunking
     v.push(mk("settings-ack", vec![FSpec::Settings { ack: true, params: vec![] }], 16384, false, false));
     v.push(mk("rst", vec![FSpec::Reset { sid: 3, code: 8 }], 16384, false, false));
@@ -343,6 +357,8 @@ pub fn write_cases(quick: bool) -> Vec<WriteCase> {
     }
     v.push(mk("push-promise-big", vec![FSpec::PushPromise { sid: 1, promised: 2, big: 30_000 }, FSpec::Headers { sid: 2, big: 0, eos: false, response: true }], 16384, false, true));
     v.push(mk("frame-16385", vec![FSpec::Headers { sid: 1, big: 40_000, eos: false, response: true }, FSpec::Data { sid: 1, len: 16385, eos: true }], 16385, false, true));
+    v.push(mk("goaway-shutdown", vec![FSpec::GoAway { last: 5, code: 0, debug: 0 }], 16384, false, true));
+    v.push(mk("data-then-goaway-shutdown", vec![FSpec::Data { sid: 1, len: 2000, eos: true }, FSpec::Reset { sid: 3, code: 8 }, FSpec::GoAway { last: 5, code: 2, debug: 17 }], 16384, false, true));
     v.push(mk("goaway-debug-300", vec![FSpec::GoAway { last: 0x7fff_ffff, code: 0xdead_beef, debug: 300 }, FSpec::Reset { sid: 1, code: 0 }], 16384, false, true));
     if !quick {
         v.push(mk("frame-max", vec![FSpec::Data { sid: 1, len: 70_000, eos: true }, FSpec::Headers { sid: 3, big: 70_000, eos: true, response: true }], 16_777_215, false, true));
@@ -718,6 +734,7 @@ pub fn run(ctx: &Ctx) -> Outcome {
         let short = base.bytes.len() <= 17;
         // short outputs: every chunking (the deviation bound exceeds the number of octets); longer: <= 2 (quick) / 3 (thorough) deviations
         let max_dev = if short && !case.pending { 32 } else if short { 4 } else if quick { 2 } else { 3 };
+        let max_dev = if case.via_shutdown && base.bytes.len() <= 17 { 3 } else { max_dev };
         let share = ((budget * 0.45 - ctx.elapsed()).max(1.0)) / (wcases.len() - i) as f64;
         let h = WriteHarness { case, index: i, baseline: base.bytes.clone() };
         let rep = explore(&h, &ExploreCfg::new(max_dev, std::time::Instant::now() + std::time::Duration::from_secs_f64(share), false));
